@@ -55,23 +55,31 @@ let () =
      input table from the root it started with: the outcome is that of the leg followed by the transaction. *)
   let collect = ref 0 in
   let held = ref [] in
+  (* done-functions the harness holds: one per successful reginit line (a shrunk case may lack the reginit of an initdone) *)
+  let regd : (string, unit) Hashtbl.t = Hashtbl.create 8 in
   let run_line line f =
+    (match f with
+     | ["initdone"; t; name] when not (Hashtbl.mem regd (t ^ "/" ^ name)) -> print_endline "n/a"
+     | _ ->
     (match (try Some (parse_cop f) with _ -> None) with
      | None -> Printf.printf "E unknown op: %s\n" line
-     | Some c -> let ((s', out), _) = cstep !s c in s := s'; print_endline (cout_s out)) in
+     | Some c -> let ((s', out), _) = cstep !s c in s := s';
+                 (match f, out with
+                  | ["reginit"; t; name], CoOut OutUnit -> Hashtbl.replace regd (t ^ "/" ^ name) ()
+                  | _ -> ());
+                 print_endline (cout_s out))) in
   let leg () =
     let ((s', out), _) = cstep !s CDeriveGo in s := s';
     (match out with CoRan (ran, _) -> Printf.printf "ran=%s\n" (bs ran) | o -> print_endline (cout_s o));
-    List.iter (fun l -> run_line l (split_ws l)) (List.rev !held);
+    List.iter (fun l -> match split_ws l with
+        | ("begin" | "insert" | "delete" | "reginit" | "initdone" | "commit" | "abort") :: _ as f -> run_line l f
+        | _ -> print_endline "n/a") (List.rev !held);
     held := [] in
   read_lines_iter (fun line ->
     match split_ws line with
     | [] -> ()
-    | "#case" :: _ -> print_endline line; s := init_csys (nat_of_int 2) N0; collect := 0; held := []
+    | "#case" :: _ -> print_endline line; s := init_csys (nat_of_int 2) N0; collect := 0; held := []; Hashtbl.reset regd
     | _ when !collect > 0 -> held := line :: !held; decr collect; if !collect = 0 then leg ()
     | ["dgoinj"; _; n] -> collect := int_of_string n; held := []; if !collect = 0 then leg ()
     | ["mode"; m] -> s := init_csys (nat_of_int 2) (nn m); print_endline "ok"
-    | f ->
-      (match (try Some (parse_cop f) with _ -> None) with
-       | None -> Printf.printf "E unknown op: %s\n" line
-       | Some c -> let ((s', out), _) = cstep !s c in s := s'; print_endline (cout_s out)))
+    | f -> run_line line f)
